@@ -63,20 +63,31 @@ package websocket
 //@   trusted
 //@   modifies nothing
 
-// prepareWrite: masks the payload (client) and appends the frame at the END of the queue.
+// A frame whose storage holds at least the header and the payload it declares (it may be longer:
+// a pooled frame keeps the length of its previous use until SetPayload or prepareWrite cut it).
+//@ pred hdrFits(s []byte) =
+//@   len(s) >= 2 && len(s) >= 2 + (((s[1] & 127) == 127) ? 8 : (((s[1] & 127) == 126) ? 2 : 0)) &&
+//@   (((s[1] & 127) == 127) ==> s[2] == 0 && s[3] == 0 && s[4] < 128) &&
+//@   len(s) >= 2 + (((s[1] & 127) == 127) ? 8 : (((s[1] & 127) == 126) ? 2 : 0)) + (((s[1] & 128) != 0) ? 4 : 0) + declLen(s)
+
+// prepareWrite: cuts the frame to header + declared payload, masks the payload (client) and
+// appends the frame at the END of the queue.
 //@ func (*Stream).prepareWrite
 //@   prop C16, C08
-//@   requires qInv(s) && poolFrame(f) && frameWF(*f) && ((s.role == RoleClient) == ((*f)[1] & 128 != 0))
+//@   requires qInv(s) && poolFrame(f) && hdrFits(*f) && ((s.role == RoleClient) == ((*f)[1] & 128 != 0))
 //@   let ext = (((*f)[1] & 127) == 127) ? 8 : ((((*f)[1] & 127) == 126) ? 2 : 0)
-//@   let off = 2 + ext + 4
+//@   let off = 2 + ext + ((((*f)[1] & 128) != 0) ? 4 : 0)
+//@   let total = off + declLen(*f)
 //@   ensures [queued] len(s.pendingFrames) == old(len(s.pendingFrames)) + 1 && s.pendingFrames[old(len(s.pendingFrames))] == f
 //@   ensures [order] forall j :: 0 <= j && j < old(len(s.pendingFrames)) ==> s.pendingFrames[j] == old(s.pendingFrames[j])
-//@   ensures [wire] wireFrame(s, f) && (*f)[0] == old((*f)[0]) && (*f)[1] == old((*f)[1]) && len(*f) == old(len(*f)) && ptr(*f) == old(ptr(*f))
+//@   // exactly header + declared payload will be written: nothing trailing from an earlier use
+//@   ensures [exact-length] len(*f) == total
+//@   ensures [wire] wireFrame(s, f) && (*f)[0] == old((*f)[0]) && (*f)[1] == old((*f)[1]) && ptr(*f) == old(ptr(*f))
 //@   // un-masking the queued payload with the key stored in front of it gives the payload handed in
-//@   ensures [unmask] s.role == RoleClient ==> (forall k :: 0 <= k && k < len(*f) - off ==>
+//@   ensures [unmask] s.role == RoleClient ==> (forall k :: 0 <= k && k < total - off ==>
 //@           (*f)[off + k] == old((*f)[off + k]) ^ (*f)[off - 4 + (k & 3)])
-//@   ensures [server-plain] s.role != RoleClient ==> (forall k :: 0 <= k && k < len(*f) ==> (*f)[k] == old((*f)[k]))
-//@   ensures [frame-only] unchanged_except(*f)
+//@   ensures [server-plain] s.role != RoleClient ==> (forall k :: 0 <= k && k < total ==> (*f)[k] == old((*f)[k]))
+//@   ensures [frame-only] unchanged_except(old(*f))
 //@   ensures [inv] qInv(s) && s.state == old(s.state)
 
 // Close codes travel big-endian in the first two payload bytes.
